@@ -1,6 +1,6 @@
-(* C02 driver: one builder script per line
+(* C02 driver: one builder script per line (all section bookkeeping is in the model: c02_xrun)
      run <T> <K> <CAP> <op> ...
-   T: v Vec, b BytesMut, a Array<CAP>, s StreamTarget<Vec>;  K: n none, s static, t tree, h hash
+   T: v Vec, b BytesMut, a Array<CAP>, s StreamTarget<Vec>, p heapless::Vec<u8,CAP> (= a), m SmallVec (= v);  K: n none, s static, t tree, h hash
    ops: q:<name>:<type>:<class>   r:<owner>:<type>:<class>:<ttl>:<pfx>:<items>
         o:<udp>:<opts> | o:<udp>:<rc|->:<ver>:<do>:<opts>   h<8 hex>   g<k>   B   w   l<n>   L
    pfx: 0 length known to the type, 1 length patched in afterwards, 2 typed record data of the library (= 0)
@@ -30,34 +30,37 @@ let item_of (s : string) : ritem =
   | 'u' -> RNameU (name_of_hex body)
   | _ -> failwith "bad item"
 
-(* one harness op = a list of model ops; conversions are the code's own
-   compositions of single steps (g<k>: .question()/.answer()/.authority()/
-   .additional(); B: .builder().question()).  sec tracks the current section. *)
-let rec rep n x = if n <= 0 then [] else x :: rep (n - 1) x
-let mk_opt udp rc ver dok opts : op =
+let mk_opt ?(clone=false) udp rc ver dok opts : op =
   let one s = match split '.' s with
     | [code; data] -> let d = bytes_of_hex data in ((ni code, n_of_int (List.length d)), d)
     | _ -> failwith "bad option" in
-  OpOpt ({ oh_udp = ni udp; oh_rc = (if rc = "-" then None else Some (ni rc)); oh_ver = ni ver; oh_do = (dok = "1") },
+  OpOpt ({ oh_udp = ni udp; oh_rc = (if rc = "-" then None else Some (ni rc)); oh_ver = ni ver;
+           oh_flags = (if clone then ni dok else if dok = "1" then n_of_int 32768 else n_of_int 0); oh_hdr = not clone },
          (if opts = "-" then [] else List.map one (split ',' opts)))
-let ops_of (sec : int ref) (w : string) : op list =
+(* one harness op = one (composite) model operation *)
+let xop_of (w : string) : xop =
   match split ':' w with
-  | ["q"; nm; ty; cl] -> [OpQ { q_name = name_of_hex nm; q_type = ni ty; q_class = ni cl }]
+  | ["q"; nm; ty; cl] -> XPrim (OpQ { q_name = name_of_hex nm; q_type = ni ty; q_class = ni cl })
   | ["r"; nm; ty; cl; ttl; pfx; items] ->
-      [OpR { r_owner = name_of_hex nm; r_type = ni ty; r_class = ni cl; r_ttl = ni ttl;
+      XPrim (OpR { r_owner = name_of_hex nm; r_type = ni ty; r_class = ni cl; r_ttl = ni ttl;
              r_prefixed = (pfx = "1");
-             r_data = (if items = "-" then [] else List.map item_of (split ',' items)) }]
-  | ["o"; udp; opts] -> [mk_opt udp "-" "0" "0" opts]
-  | ["o"; udp; rc; ver; dok; opts] -> [mk_opt udp rc ver dok opts]
-  | ["B"] -> let k = !sec in sec := 0; builder_ops (n_of_int k)
-  | ["w"] -> [OpRewind]
-  | ["L"] -> [OpLimit None]
-  | [x] when String.length x >= 2 && x.[0] = 'g' ->
-      let k = min 3 (int_of_string (String.sub x 1 (String.length x - 1))) in
-      let cur = !sec in sec := k;
-      conv_ops (n_of_int cur) (n_of_int k)
-  | [x] when String.length x = 9 && x.[0] = 'h' -> [OpHdr (bytes_of_hex (String.sub x 1 8))]
-  | [x] when String.length x >= 2 && x.[0] = 'l' -> [OpLimit (Some (ni (String.sub x 1 (String.length x - 1))))]
+             r_data = (if items = "-" then [] else List.map item_of (split ',' items)) })
+  | ["o"; udp; opts] -> XPrim (mk_opt udp "-" "0" "0" opts)
+  | ["o"; udp; rc; ver; dok; opts] -> XPrim (mk_opt udp rc ver dok opts)
+  (* OptBuilder::clone_from(OptRecord): ext rcode octet, version, 16 flag bits; header RCODE untouched *)
+  | ["c"; udp; ext; ver; flags; opts] -> XPrim (mk_opt ~clone:true udp (string_of_int (16 * int_of_string ext)) ver flags opts)
+  (* S:<kind>:<id>:<opcode>:<rd>:<rcode>:<questions>  kind 0 start_answer, 1 start_error, 2 request_axfr *)
+  | ["S"; kind; id; opcode; rd; rcode; qs] ->
+      let q s = match split '.' s with
+        | [nm; ty; cl] -> { q_name = name_of_hex nm; q_type = ni ty; q_class = ni cl }
+        | _ -> failwith "bad start question" in
+      XStart (ni kind, ni id, ni opcode, (rd = "1"), ni rcode, (if qs = "-" then [] else List.map q (split ',' qs)))
+  | ["B"] -> XBuilder
+  | ["w"] -> XPrim OpRewind
+  | ["L"] -> XPrim (OpLimit None)
+  | [x] when String.length x >= 2 && x.[0] = 'g' -> XGoto (ni (String.sub x 1 (String.length x - 1)))
+  | [x] when String.length x = 9 && x.[0] = 'h' -> XPrim (OpHdr (sets_of_fields (fields_of_octets (bytes_of_hex (String.sub x 1 8)))))
+  | [x] when String.length x >= 2 && x.[0] = 'l' -> XPrim (OpLimit (Some (ni (String.sub x 1 (String.length x - 1)))))
   | _ -> failwith ("bad op " ^ w)
 
 let word = function
@@ -78,28 +81,15 @@ let show_msg (m : n list) : string =
 
 let handle = function
   | "run" :: t :: k :: cap :: ops ->
-      let cfg = { t_cap = (if t = "a" then Some (ni cap) else None);
+      let cfg = { t_cap = (if t = "a" || t = "p" then Some (ni cap) else None);
                   t_stream = (t = "s");
                   t_kind = (match k with "n" -> KNone | "s" -> KStatic | "t" -> KTree | "h" -> KHash
                                        | _ -> failwith "bad kind") } in
-      let sec = ref 0 in
-      let groups = List.map (ops_of sec) ops in
-      (match c02_run cfg (List.concat groups) with
+      (match c02_xrun cfg (List.map xop_of ops) with
        | None -> "INIT-ERR"
-       | Some ((st, a), ws0) ->
-           (* regroup: one word per harness op (the last word of its group;
-              a conversion group of length 0 is a no-op) *)
-           let rec regroup gs ws = match gs with
-             | [] -> []
-             | g :: gs' ->
-                 let rec take n ws last = if n = 0 then (last, ws, false) else
-                   (match ws with [] -> (last, [], true)
-                                | w :: r -> (match w with RPanic _ | RFuel -> (w, [], true) | _ -> take (n - 1) r w)) in
-                 let (w, rest, stop) = take (List.length g) ws RNone in
-                 if stop then (if rest = [] && (match w with RPanic _ | RFuel -> true | _ -> false) then [w] else [])
-                 else w :: regroup gs' rest in
-           let ws = regroup groups ws0 in
+       | Some (((st, a), ws), lost) ->
            let r = "R=" ^ (if ws = [] then "-" else String.concat "," (List.map word ws)) in
+           if lost then r ^ " LOST" else
            let dead = List.exists (function RPanic _ | RFuel -> true | _ -> false) ws in
            if dead then r ^ " DEAD" else
            let m = c02_msg cfg st in
